@@ -68,6 +68,7 @@ class AliasWorld(WorldBase):
         self.locker = []      # caller-held input arrays: dict(arr, note)
         self.handed = []      # arrays handed out by the library
         self.static_types = (sf.Series, sf.Frame, sf.Index, sf.IndexHierarchy)
+        self.go_sources = []
         self._current = None
 
     def state_hash(self):
@@ -100,13 +101,15 @@ class AliasWorld(WorldBase):
             return self.gen_new(ch)
         w = [('call', 10), ('new', 2 if len(hs) < self.config['pool_max'] else 0.2), ('write', 10 * self.config['p_write'] if self.locker else 0),
              ('roundtrip', 1.5), ('selector', 4), ('operator', 2), ('write_out', 1 if self.handed else 0), ('drop', 0.5 if len(hs) > 3 else 0),
-             ('mutate_attempt', 1), ('go_grow', 2)]
+             ('mutate_attempt', 1), ('go_grow', 2), ('grow_source', 2 if self.go_sources else 0)]
         what = ch.weighted(w)
         if what == 'new':
             return self.gen_new(ch)
         if what == 'write':
             i = ch.randint(0, len(self.locker) - 1)
             return {'op': 'write', 'arr': i, 'pos': ch.randint(0, 5)}
+        if what == 'grow_source':
+            return {'op': 'grow_source', 'i': ch.randint(0, len(self.go_sources) - 1), 'how': ch.choice(['setitem', 'extend', 'extend_items'])}
         if what == 'write_out':
             return {'op': 'write_out', 'arr': ch.randint(0, len(self.handed) - 1)}
         h = ch.choice(hs)
@@ -137,7 +140,7 @@ class AliasWorld(WorldBase):
         op = {'op': 'new', 'kind': kind, 'out': self.next_h, 'nr': nr, 'nc': nc, 'dk': dk,
               'writeable': ch.chance(0.8), 'index_array': ch.chance(0.6), 'iw': ch.chance(0.8),
               'layout': ch.choice(['2d', 'columns', 'mixed', 'fortran', 'view', 'strided']),
-              'route': ch.randint(0, 7), 'name': ch.choice([None, 'nm'])}
+              'route': ch.randint(0, 21), 'name': ch.choice([None, 'nm'])}
         return op
 
     # ------------------------------------------------------------------ helpers
@@ -416,7 +419,7 @@ class AliasWorld(WorldBase):
                 return cls(a, index=index_arg(nr, 0), dtype=a.dtype, name=name), 'Series(array,dtype)'
             if kind in ('Frame', 'FrameHE'):
                 cls = getattr(sf, kind)
-                r = route % 8
+                r = route % 11
                 layout = op['layout']
                 if r == 0:
                     a = self._keep(self._mk_array(nr, dk, w, nc, layout), 'Frame 2d values')
@@ -444,6 +447,24 @@ class AliasWorld(WorldBase):
                     a = self._keep(self._mk_array(nr, dk, w, nc, layout), 'Frame 2d values')
                     base = sf.Frame(a, index=index_arg(nr, 0), columns=index_arg(nc, 1))
                     return cls(base, name=name), 'Frame(Frame(array2d))'
+                if r == 8:
+                    # block consolidation is another place where "the array was just created" may be assumed
+                    return cls.from_items(zip(labels, cols), index=index_arg(nr, 0), name=name, consolidate_blocks=True), 'Frame.from_items(arrays,consolidate_blocks)'
+                if r == 9:
+                    # a static frame converted from a grow-only one; the grow-only source stays with the caller and grows later
+                    g = sf.FrameGO.from_items(zip(labels, cols), index=index_arg(nr, 0), name=name)
+                    self.go_sources.append(g)
+                    how = route % 3
+                    return (g.to_frame() if how == 0 else cls(g) if how == 1 else g.to_frame_he().to_frame()), 'Frame(from grow-only source)'
+                if r == 10:
+                    if not nc or not nr:
+                        raise SimulatedFailure('empty structured array')
+                    sa = np.zeros(nr, dtype=[(l, 'i8' if j % 2 else 'f8') for j, l in enumerate(labels)])
+                    for j, l in enumerate(labels):
+                        sa[l] = np.arange(nr) + 10 * j
+                    sa.flags.writeable = w
+                    self._keep(sa, 'structured array')
+                    return cls.from_structured_array(sa, name=name), 'Frame.from_structured_array'
                 a = self._keep(self._mk_array(nr, dk, w, nc, 'strided'), 'Frame strided values')
                 v = a[:, ::2] if nc > 1 else a
                 return cls(v, index=index_arg(nr, 0), name=name), 'Frame(strided view)'
@@ -493,6 +514,14 @@ class AliasWorld(WorldBase):
             return 'readonly-input'
         k = a.dtype.kind
         pos = op.get('pos', 0) % a.size
+        if a.dtype.names:
+            try:
+                for nm in a.dtype.names:
+                    a[nm][pos] = 987654
+            except Exception:
+                return 'write-failed'
+            self.fault('adversary-write')
+            return 'written:' + item['note']
         try:
             if k == 'b':
                 a.flat[pos] = not bool(a.flat[pos])
@@ -681,6 +710,29 @@ class AliasWorld(WorldBase):
             return 'raise:' + type(r).__name__
         self.stats['member_ok:' + site] += 1
         self.collect(r, site, 'operator')
+        return 'ok'
+
+    def do_grow_source(self, op, dec_):
+        '''The grow-only frame a static one was converted from grows: nothing may show through the static one.'''
+        sf = self.sf
+        if not self.go_sources:
+            return 'skip'
+        g = self.go_sources[op['i'] % len(self.go_sources)]
+        n = len(g.index)
+        key = 'ZZ%d' % g.shape[1]
+
+        def run():
+            if op['how'] == 'setitem':
+                g[key] = 0
+            elif op['how'] == 'extend':
+                g.extend(sf.Frame.from_dict({key: list(range(n)), key + 'b': list(range(n))}, index=g.index))
+            else:
+                g.extend_items(((key, list(range(n))),))
+        st, r = call(run)
+        if st == 'raise':
+            self.fault('failing-call')
+            return 'raise:' + type(r).__name__
+        self.fault('grow-only-source-grown')
         return 'ok'
 
     def do_go_grow(self, op, dec_):
